@@ -819,7 +819,7 @@ class Body:
                 continue
             tk = P.term.kind
             variant = None
-            if tk == "goto" and P.term.d["t"] in retset:
+            if tk in ("goto", "drop") and P.term.d["t"] in retset and P.idx not in retset:
                 # last assignment to the return local inside P
                 for st in reversed(P.stmts):
                     if st.kind == "assign" and st.dest.is_local() and st.dest.local == ret_local:
@@ -1377,9 +1377,13 @@ class Sym:
             return self.memo[l]
         if depth > MAX_DEPTH or l in stack:
             return ("var", b.local_name(l) or "_%d" % l)
-        defs = b.defs.get(l, [])
+        alld = b.defs.get(l, [])
         live = b.live_blocks()
-        defs = [d for d in defs if d[0] in live]
+        defs = [d for d in alld if d[0] in live]
+        if not defs and alld and l > b.argc and getattr(b, "frames", None):
+            # only defined in a block that return-threading of an inlined helper by-passed (the `Try::branch` of `helper()?`): the
+            # live uses still mean that value
+            defs = list(alld)
         if 1 <= l <= b.argc:
             name = b.local_name(l) or "_%d" % l
             if not defs:
@@ -1390,6 +1394,10 @@ class Sym:
         if len(defs) == 1 and not b.partial_writes(l):
             blk, si = defs[0]
             e = self.def_expr(blk, si, depth + 1, stack + (l,))
+            if e[0] == "phi" and l > b.argc and b.local_name(l):
+                # a user variable initialised from a helper's several return paths (`let broadcast = match helper() {..}`): it stays
+                # the variable it was when each path assigned it directly
+                e = ("var", b.local_name(l))
             self.memo[l] = e
             return e
         if len(defs) == 1:
